@@ -76,6 +76,27 @@ def match_known(prop, job, desc, cex):
     return None
 
 
+def layout_signature(ll_path, types):
+    """normalised field lists of the named LLVM struct types (numeric type suffixes and padding arrays removed)"""
+    sig = {}
+    txt = open(ll_path).read()
+    for t in types:
+        m = re.search(r'^%"' + re.escape(t) + r'" = type <?\{(.*?)\}>?$', txt, re.M)
+        if not m:
+            sig[t] = None; continue
+        fields = [re.sub(r'\.\d+(?=["*]|$)', '', f.strip()) for f in m.group(1).split(',')]
+        sig[t] = [f for f in fields if not re.fullmatch(r'\[\d+ x i8\]', f)]
+    return sig
+
+
+def check_layout(job, expected):
+    """compare the representation of the classes a layer-A harness constructs states of with the one its invariants were written for"""
+    ll = job.cfile[:-2] + '.linked.ll'
+    sig = layout_signature(ll, list(expected))
+    diff = {t: {'expected': expected[t], 'found': sig.get(t)} for t in expected if sig.get(t) != expected[t]}
+    return diff
+
+
 def run_jobs(prop, jobs, wd, workers=None):
     """build each distinct harness once, then run all queries in parallel."""
     built = {}
@@ -97,6 +118,12 @@ def run_jobs(prop, jobs, wd, workers=None):
         if j.cfile is None:
             j.error = j.error or 'build failed'
             return j
+        if getattr(j, 'layout', None):
+            d = check_layout(j, j.layout)
+            if d:
+                j.error = ('representation changed, the state invariants of this one-step harness describe another layout (no verdict from this obligation; '
+                           'history-based obligations still apply): ' + json.dumps(d))[:900]
+                return j
         j.result = e1.cbmc(j.cfile, j.entry, unwind=j.unwind, unwindset=j.unwindset, timeout=j.timeout, mem_gb=j.mem_gb, extra=j.extra)
         return j
     with concurrent.futures.ThreadPoolExecutor(max_workers=workers) as ex:
@@ -201,7 +228,7 @@ def classify(prop, jobs, wd, out=None, all_tags=None):
                 else:
                     job_bad.append('vacuous: reachability witness not reachable (%s)' % d)
                 continue
-            mine = any(d.startswith(t + ':') or d.startswith(t + '(') for t in j.tags if t == prop) or \
+            mine = any(d.startswith(t + ':') or d.startswith(t + '(') for t in j.tags) or \
                 (not re.match(r'C\d\d', d) and j.ub_pat is not None and re.search(j.ub_pat, pid + ' ' + d) is not None and '(model bound)' not in d and 'unwinding assertion' not in d)
             if '(model bound)' in d or 'unwinding assertion' in d or 'recursion unwinding' in d:
                 if st == 'FAILURE':
@@ -213,7 +240,7 @@ def classify(prop, jobs, wd, out=None, all_tags=None):
                 continue
             out.obligations += 1
             sample['assertions'][d[:110]] = st
-            if d.startswith(prop + '(EXISTS)'):
+            if re.match(r'C\d\d\(EXISTS\)', d):
                 # existential obligation: the solver must FIND a witness, i.e. the negated assertion must fail
                 if st == 'FAILURE':
                     out.discharged += 1
